@@ -137,6 +137,37 @@ Proof.
     + intros d' Hd'. apply H. right. exact Hd'.
 Qed.
 
+Lemma dblock_loop_unfold fuel doc k i rd allowed :
+  dblock_loop fuel doc (S k) i rd allowed =
+  (od <- gets (fun s => nth_error (s_dblocks s) i) ;;
+   match od with
+   | None => ret (None, rd)
+   | Some d =>
+       if (match allowed with [] => false | _ => true end) && negb (mem (d_name d) allowed)
+       then dblock_loop fuel doc k (S i) rd allowed
+       else
+         match rd with
+         | [] => raise ExAssert
+         | cur :: rest =>
+             match re_search (d_openRe d) cur with
+             | None => dblock_loop fuel doc k (S i) rd allowed
+             | Some m =>
+                 match grp0 m, str_eqb (d_name d) $"paragraph" with
+                 | [], false => raise ExIndex
+                 | c0 :: _, false =>
+                     if c0 =? 92 then dblock_loop fuel doc k (S i) (tl cur :: rest) allowed
+                     else if negb (db_verify d m) then dblock_loop fuel doc k (S i) rd allowed
+                     else r <- dblock_body fuel doc i d m rest ;; ret (Some (fst r), snd r)
+                 | [], true => raise ExIndex
+                 | _ :: _, true =>
+                     if negb (db_verify d m) then dblock_loop fuel doc k (S i) rd allowed
+                     else r <- dblock_body fuel doc i d m rest ;; ret (Some (fst r), snd r)
+                 end
+             end
+         end
+   end).
+Proof. reflexivity. Qed.
+
 (* ---- the closing pattern stored by the opening fence ---- *)
 Lemma nth_set_closeRe rx d0 : forall i (l : list ddef), (i < length l)%nat ->
   let l' := (fix go (k : nat) (l : list ddef) : list ddef :=
@@ -242,3 +273,79 @@ Proof.
   - apply (dblocks_render_code content [] s Hq Hc Hnot).
 Qed.
 End Code.
+
+(* ---- C08: a comment block renders to nothing, whatever it holds ---- *)
+Definition copen : str := $"/*".
+Definition cclose : str := $"*/".
+Definition comment_def : ddef := nth 1 dblocks_default dummy_ddef.
+Definition before_comment : list ddef := firstn 1 dblocks_default.
+Definition m_copen : mres := {| m_start := 0; m_end := 2; m_groups := [Some copen] |}.
+
+Lemma comment_facts :
+  d_name comment_def = $"comment" /\ d_verify comment_def = DvNone /\ d_delim comment_def = DfNone /\
+  d_expand comment_def = mkExpand None None (Some true) None (Some true) /\
+  re_groups (d_closeRe comment_def) = O /\
+  dblocks_default = before_comment ++ comment_def :: skipn 2 dblocks_default /\ length before_comment = 1%nat /\
+  forallb (fun d => match re_search (l_re d) copen with None => true | Some _ => false end) lineblocks_defs = true /\
+  forallb (fun d => match re_search (li_re d) copen with None => true | Some _ => false end) lists_defs = true /\
+  forallb (fun d => match re_search (d_openRe d) copen with None => true | Some _ => false end) before_comment = true /\
+  re_search (d_openRe comment_def) copen = Some m_copen /\
+  (exists m, re_search (d_closeRe comment_def) cclose = Some m).
+Proof. repeat split; try (vm_compute; reflexivity). eexists. vm_compute. reflexivity. Qed.
+
+Lemma readTo_closer rx closer : re_groups rx = O -> (exists m, re_search rx closer = Some m) ->
+  forall content rest, (forall l, In l content -> re_search rx l = None) ->
+  readTo rx (content ++ closer :: rest) = Ok (content, closer :: rest).
+Proof.
+  intros Hg (m & Hm). induction content as [|l content IH]; intros rest Hc; cbn [app readTo].
+  - rewrite Hm, Hg. reflexivity.
+  - rewrite (Hc l (or_introl eq_refl)). rewrite IH; [reflexivity|]. intros l' Hl'. apply Hc. right. exact Hl'.
+Qed.
+
+Section Comment.
+Variable fuel : nat.
+Variable doc : str -> M str.
+
+Lemma dblock_body_comment content rest s : quiet_default s ->
+  (forall l, In l content -> re_search (d_closeRe comment_def) l = None) ->
+  dblock_body fuel doc 1 comment_def m_copen (content ++ cclose :: rest) s = Ok (([], rest), s).
+Proof.
+  intros Hq Hc. pose proof Hq as (Hd & Hr & Hqt & Hp & Ho).
+  destruct comment_facts as (Fname & Fverify & Fdelim & Fexp & Fg & _ & _ & _ & _ & _ & _ & Fclose).
+  unfold dblock_body. rewrite Fdelim. unfold bind at 1. cbn [ret].
+  unfold bind at 1. unfold gets at 1.
+  assert (Hn1 : nth 1 (s_dblocks s) comment_def = comment_def) by (rewrite Hd; reflexivity). rewrite Hn1.
+  rewrite (readTo_closer _ cclose Fg Fclose content rest Hc).
+  unfold bind at 1. cbn [andb ret tl app].
+  unfold bind at 1. unfold gets at 1. rewrite Hn1, Fexp, Ho.
+  unfold expand_merge, expand_none. cbn [e_macros e_container e_skip e_spans e_specials truthy].
+  unfold bind at 1. cbn [ret bind modify]. f_equal. f_equal. destruct s; cbn in *; subst; reflexivity.
+Qed.
+
+Theorem comment_block_document n content s : quiet_default s ->
+  (forall l, In l content -> re_search (d_closeRe comment_def) l = None) ->
+  doc_loop fuel doc (S (S n)) (copen :: content ++ [cclose]) s = Ok ([], s).
+Proof.
+  intros Hq Hc. pose proof Hq as (Hd & _).
+  destruct comment_facts as (Fname & Fverify & _ & _ & _ & Fsplit & Flen & Fl & Fli & Fbefore & Fmatch & _).
+  rewrite (TableFacts.doc_loop_delimited_block fuel doc (S n) (copen :: content ++ [cclose]) copen (content ++ [cclose])
+             (copen :: content ++ [cclose]) (copen :: content ++ [cclose]) [] [] s s s s).
+  - rewrite (TableFacts.doc_loop_blank_only fuel doc n [] s) by reflexivity. reflexivity.
+  - reflexivity.
+  - unfold lineblocks_render. apply lineblocks_loop_none_rest. exact (none_of (fun d => re_search (l_re d) copen) _ Fl).
+  - unfold lists_render, bind, matchItem. rewrite matchItem_loop_none_rest; [reflexivity|].
+    exact (none_of (fun d => re_search (li_re d) copen) _ Fli).
+  - unfold dblocks_render. unfold bind at 1. unfold gets at 1.
+    assert (Elen : length (s_dblocks s) = 9%nat) by (rewrite Hd; reflexivity). rewrite Elen.
+    pose proof (dblock_loop_skip_rest fuel doc copen (content ++ [cclose]) s before_comment [] (comment_def :: skipn 2 dblocks_default) 8) as Sk.
+    cbn [length app] in Sk. rewrite Flen in Sk. change (1 + 8)%nat with 9%nat in Sk. change (0 + 1)%nat with 1%nat in Sk.
+    rewrite Sk; [|rewrite Hd; exact Fsplit|exact (none_of (fun d => re_search (d_openRe d) copen) _ Fbefore)].
+    change 8%nat with (S 7). rewrite dblock_loop_unfold. unfold bind at 1. unfold gets at 1.
+    assert (En : nth_error (s_dblocks s) 1 = Some comment_def) by (rewrite Hd; reflexivity).
+    rewrite En. cbn [andb]. rewrite Fmatch.
+    unfold grp0, grp_s, grp. cbn [nth m_groups m_copen]. unfold copen. change ($"/*") with (47 :: 42 :: @nil char).
+    rewrite Fname. replace (str_eqb $"comment" $"paragraph") with false by reflexivity.
+    replace (47 =? 92) with false by reflexivity. unfold db_verify. rewrite Fverify. cbn [negb].
+    unfold bind at 1. rewrite (dblock_body_comment content [] s Hq Hc). reflexivity.
+Qed.
+End Comment.
